@@ -85,19 +85,27 @@ def shrink(hbin, driver, c, req):
             if bad(cc, rq):
                 f[5], changed = "-", True
                 continue
-        # drop ACL entries
-        fabs = c["fabs"].split("|") if c["fabs"] != "-" else []
-        for fi, fb in enumerate(fabs):
-            idx, es, gs = fb.split(":")
-            el = [] if es == "-" else es.split("+")
-            for k in range(len(el)):
-                cand = el[:k] + el[k + 1:]
-                nf = list(fabs)
-                nf[fi] = "%s:%s:%s" % (idx, "+".join(cand) or "-", gs)
-                cc = dict(c)
-                cc["fabs"] = "|".join(nf)
-                if bad(cc, ",".join(f[:6] + ["&".join(items)])):
-                    c, changed = cc, True
+        # drop ACL entries (in every alternative table)
+        tables = c["fabs"].split("!")
+        if f[5] == "-" and len(tables) > 1:
+            tables = tables[:1]
+            c = dict(c)
+            c["fabs"] = tables[0]
+        for ti, tb in enumerate(tables):
+            fabs = tb.split("|") if tb != "-" else []
+            for fi, fb in enumerate(fabs):
+                idx, es, gs = fb.split(":")
+                el = [] if es == "-" else es.split("+")
+                for k in range(len(el)):
+                    cand = el[:k] + el[k + 1:]
+                    nf = list(fabs)
+                    nf[fi] = "%s:%s:%s" % (idx, "+".join(cand) or "-", gs)
+                    cc = dict(c)
+                    cc["fabs"] = "!".join(tables[:ti] + ["|".join(nf)] + tables[ti + 1:])
+                    if bad(cc, ",".join(f[:6] + ["&".join(items)])):
+                        c, changed = cc, True
+                        break
+                if changed:
                     break
             if changed:
                 break
@@ -135,13 +143,14 @@ def shrink(hbin, driver, c, req):
 
 EXPLAIN = """fields of the case line:
   Q <id> <max paths per invoke> <fabrics> <requester> <nodes> <requests>
-  fabrics   idx:entries:groups joined by '|'; entry = privilege bits,auth mode,-,subjects,targets (target = endpoint.cluster.devtype)
+  fabrics   alternative ACL tables joined by '!'; table = idx:entries:groups joined by '|';
+            entry = privilege bits,auth mode,-,subjects,targets (target = endpoint.cluster.devtype)
   requester SC,fabric,peer node id,CASE tags,0,0 (CASE session) | SP,fabric,... (PASE session)
   nodes     joined by '#'; node = endpoints joined by '|'; endpoint = id~device types~clusters;
             cluster = id=attributes=commands; element = id.access bits.enabled
             (access bits: 1 V,2 O,4 M,8 A levels; 16 readable; 32 writable; 64 fabric-scoped; 128 fabric-sensitive; 256 timed-only)
   request   op(R/W/I),TimedRequest flag of the action,fabricFiltered,timeout of a preceding TimedRequest (n: none),
-            ms waited after it,node switches (k>j: after k handler calls node j is in force),items (endpoint.cluster.element[^command ref], x = wildcard)
+            ms waited after it,switches (k>j/a: after k handler calls node j and ACL table a are in force),items (endpoint.cluster.element[^command ref], x = wildcard)
 response: X<status> (bare StatusResponse) | I[entries]L[handler calls]; D = served by the handler, S<path>:<status> = refused"""
 
 
@@ -157,12 +166,14 @@ def main(tier, replay=None):
     if replay:
         stats = {}
         with open(cases, "w") as f:
+            n = 0
             for l in open(replay):
                 l = l.strip()
                 if l.startswith("case: "):
                     l = l[6:]
                 if l.startswith("Q "):
-                    f.write(l + "\n")
+                    f.write("Q r%d %s\n" % (n, l.split(" ", 2)[2]))
+                    n += 1
     else:
         subprocess.run([hbin, "gen", c.tier, str(c.seed), rd], check=True)
         stats = json.load(open(os.path.join(rd, "stats.json")))
@@ -205,6 +216,7 @@ def main(tier, replay=None):
     reported = 0
     served = refused = bare = calls = 0
     kinds = {}
+    status_hist = {}
     for key, cl in case_by_key.items():
         cs = split_case(cl)
         ir = responses(impl.get(key, ""))
@@ -219,11 +231,17 @@ def main(tier, replay=None):
                 continue
             if r.startswith("X"):
                 bare += 1
+                k2 = "bare_" + r[1:].split("L")[0]
+                status_hist[k2] = status_hist.get(k2, 0) + 1
             else:
                 body = r[2:r.index("]")] if "]" in r else ""
                 ents = [x for x in body.split(",") if x]
                 served += sum(1 for x in ents if x.startswith("D"))
                 refused += sum(1 for x in ents if x.startswith("S"))
+                for x in ents:
+                    if x.startswith("S"):
+                        k2 = "%s_%s" % (rq[0], x.rsplit(":", 1)[1])
+                        status_hist[k2] = status_hist.get(k2, 0) + 1
                 lg = r[r.index("L[") + 2:-1] if "L[" in r else ""
                 calls += len([x for x in lg.split(",") if x])
             if v == ".":
@@ -312,6 +330,11 @@ def main(tier, replay=None):
                 "refusing / omitting something (a status entry or a wildcard item)",
         "samples": samples,
         "requests_by_operation": kinds,
+        "status_histogram_impl": status_hist,
+        "arms": "every status the model can produce is counted per operation in status_histogram_impl "
+                "(bare_<code>: whole-request StatusResponse; R/W/I_<code>: per-path status); 126 access, 127 endpoint, "
+                "128 invalid action, 129 command, 134 attribute, 136 write, 143 read, 148 timeout, 195 cluster, "
+                "198 needs timed, 201 timed mismatch",
         "generator_distribution": stats,
         "entries_served": served,
         "entries_refused": refused,
